@@ -43,6 +43,13 @@ def cases(tier, seed):
             if i not in seen:
                 seen.add(i)
                 out.append({"id": i, "fv": fv, "dev": dev, "seed": seed, "tier": tier})
+    # explicit members: period-dependent stochastic transitions with more periods than labels of the other dependency
+    for extra in ({"h": "hp", "T": 4}, {"h": "dph", "T": 4}, {"h": "ph", "T": 4}):
+        fv = family.normalise(dict(family.BASE, **extra))
+        i = e1.fv_id(fv)
+        if i not in seen:
+            seen.add(i)
+            out.append({"id": i, "fv": fv, "dev": 2, "seed": seed, "tier": tier})
     # explicit members with a non-broadcast-safe auxiliary function in the ancestry of next_w (K5)
     for extra in ({}, {"filt": "none"}, {"T": 2}):
         fv = family.normalise(dict(family.BASE, aux="reduce", **extra))
